@@ -193,9 +193,9 @@ class Scenario:
         def get_message(st):
             m = sc._orig_gm(st)
             try:
-                sc.consumed.append((type(st).__name__, m.header.get_command_code(), m.header.is_request(), m.header.get_hop_by_hop()))
+                sc.consumed.append((type(st).__name__, m.header.get_command_code(), m.header.is_request(), m.header.get_hop_by_hop(), sc.sched.steps))
             except BaseException:
-                sc.consumed.append((type(st).__name__, None, None, None))
+                sc.consumed.append((type(st).__name__, None, None, None, sc.sched.steps))
             return m
         State.get_message = get_message
 
